@@ -921,9 +921,12 @@ func evalFunctionApplication(node *jparse.FunctionApplicationNode, data reflect.
 	if f, ok := node.RHS.(*jparse.FunctionCallNode); ok {
 
 		simYield("apply.rewrite", f)
-		f.Args = append([]jparse.Node{node.LHS}, f.Args...)
+		// Evaluate a copy of the call so that the parsed
+		// expression is left unchanged.
+		call := *f
+		call.Args = append([]jparse.Node{node.LHS}, f.Args...)
 		simYield("apply.rewritten", f)
-		return evalFunctionCall(f, data, env)
+		return evalFunctionCall(&call, data, env)
 	}
 
 	// Evaluate both sides and return any errors.
